@@ -736,6 +736,14 @@ class ExcludeRegionState(object):  # pylint: disable=too-many-instance-attribute
                 returnCommands, self.position
             )
 
+        if (not returnCommands and not self.excluding and deltaE != 0):
+            # The command changed the extruder position of the file, but was dropped outside of an
+            # excluded region (a retraction that was already performed while excluding).  Keep the
+            # extruder position of the printer in sync with the file.
+            returnCommands = [
+                "G92 E{e}".format(e=formatNumber(eAxis.nativeToLogical()))
+            ]
+
         if (self.excluding and not wasExcluding):
             # The move that entered the excluded region was not executed, so the tool is still at
             # the position it had before that move (which may differ in Z)
